@@ -60,8 +60,12 @@ def _work(task):
         out["trusted"] = sorted(ex.trusted)
         if shard == 0:
             out["pre_sat"] = solve.is_sat(ex.pre_pc)
+        not_proved = set()
         for k, ob in enumerate(obs):
             if k % nshards != shard:
+                continue
+            if ob.name in not_proved:
+                # one undischarged path decides the obligation; the remaining paths would only cost time
                 continue
             hints = None
             for pat, h in (getattr(ex.c, "solver_hints", None) or {}).items():
@@ -86,6 +90,8 @@ def _work(task):
                 elif r.get("model_text"):
                     rec["input"] = concretise_text(ex, r["model_text"])
             out["results"].append(rec)
+            if r["status"] != "unsat":
+                not_proved.add(ob.name)
     except Exception:
         out["error"] = traceback.format_exc()
     return out
@@ -264,6 +270,9 @@ def _work_lemma(task):
         out["n_total"] = len(vcs)
         hints = (getattr(mod, "LEMMA_HINTS", None) or {}).get(name)
         for k, (sub, pc, goal) in enumerate(vcs):
+            if pc and solve.is_sat(pc, 1500) == "unsat":
+                out["error"] = "vacuity guard: hypotheses of lemma %s.%s are contradictory" % (name, sub)
+                return out
             r = solve.check_vc(pc, goal, tier, hints=hints)
             rec = {"name": "%s.lemma.%s%s" % (prop, name, ("." + sub) if sub else ""), "kind": "lemma",
                    "status": r["status"], "backend": r.get("backend"), "time": round(r.get("time", 0.0), 3),
